@@ -109,6 +109,7 @@ def summarise(r):
         'n_modules': len(plan['universe']), 'setup': plan.get('setup'),
         'chain_len': max([len(static_chains(plan)[m['id']]) for m in plan['universe']] or [0]),
         'pairs': [list(x) for x in r.get('pairs', [])][:200],
+        'corpus': [m['corpus'] for m in plan['universe'] if m.get('corpus')],
     }
     if r['violations']:
         s['violations'] = [{'index': r['index'], 'violation': r['violations'][0], 'plan': plan,
@@ -136,7 +137,7 @@ def new_aggregate():
     return {'counters': {}, 'steps': 0, 'switches': 0, 'judged': 0, 'policies': {}, 'classes': {},
             'distinct': set(), 'distinct_nontrivial': set(), 'sigs': set(), 'digests': {}, 'samples': [],
             'baseline_runs': 0, 'baseline_judged': 0, 'ops': 0, 'empty': 0, 'setup': {}, 'chain_len': {},
-            'clients': {}, 'pairs': set()}
+            'clients': {}, 'pairs': set(), 'corpus': {}}
 
 
 def aggregate(agg, s):
@@ -160,6 +161,8 @@ def aggregate(agg, s):
     agg['chain_len'][str(s['chain_len'])] = agg['chain_len'].get(str(s['chain_len']), 0) + 1
     agg['clients'][str(s['n_clients'])] = agg['clients'].get(str(s['n_clients']), 0) + 1
     agg['distinct'].add(s['distinct'])
+    for w in s.get('corpus', []):
+        agg['corpus'][w] = agg['corpus'].get(w, 0) + 1
     agg['sigs'].add(s['sig'])
     for a, b in s.get('pairs', []):
         agg['pairs'].add((a, b))
@@ -211,6 +214,7 @@ def coverage(agg):
         'clients_per_run': agg['clients'],
         'longest_extension_chain_per_run': agg['chain_len'],
         'setup_mode': agg['setup'],
+        'runs_on_the_repositorys_own_grammars': agg['corpus'],
         'fault_free_single_client_baseline': {'runs': agg['baseline_runs'], 'judged': agg['baseline_judged']},
         'universes_that_did_not_compile': agg['empty'],
         'real_vs_stub': {
